@@ -289,12 +289,37 @@ theorem parser_tables_as_modelled :
   refine ⟨by decide, by decide, by decide, by decide, by decide, by decide, by decide, by decide, by decide,
     by decide, by decide, by decide⟩
 
+/-- a small oracle for the examples: texts starting with `x` are extended public keys, every point is
+    on the curve. -/
+def exampleOracle : KeyOracle where
+  xkey t := if t.head? = some 'x' then some t else none
+  validPub _ := true
+  wif _ := none
+  validAddr _ := false
+
 /-- T2 (keys): `_parse_key(str(key)) == key` for every well-formed key expression — origin with any
     path, fixed key (compressed, uncompressed, x-only) or extended key with any path and either
     wildcard, either hardening symbol — at every position whose flags admit the key. -/
 theorem parse_key_of_str (o : KeyOracle) (xOnly compressed musigAllowed : Bool) (k : Key)
     (h : KeyOk o xOnly compressed k) : parseKey o xOnly compressed musigAllowed (strKey k) = .ok k :=
   parseKey_strKey o xOnly compressed musigAllowed k h
+
+/-- whatever `_parse_key` reads in an x-only spelling (32 hex bytes, or a WIF where only x-only keys are
+    written) it holds in the even-y SEC form `02‖x`, whatever the parity of the WIF's own point: the
+    form `str` writes and reads back (regression of finding `roundtrip.xonly_wif_odd_y`). -/
+theorem x_only_keys_read_in_even_form (o : KeyOracle) (xOnly compressed musigAllowed : Bool) (e : List Char)
+    (k : Key) (sec : Bytes) (h : parseKey o xOnly compressed musigAllowed e = .ok k)
+    (ha : k.atom = .pub sec true) (hl : sec.length = 33) : sec.head? = some 2 :=
+  parseKey_xonly_even o xOnly compressed musigAllowed e k sec h ha hl
+
+/-- a tr() leaf that opens a bracket and is not closed by `)` — e.g. `pk(KEY}`, which
+    `_split_arguments` counts as balanced — is refused (regression of finding
+    `parse.tr_leaf_closing_bracket_kind`). -/
+theorem tr_leaf_must_close (o : KeyOracle) (fuel depth : Nat) (e : List Char) (h1 : e.head? ≠ some '{')
+    (h2 : '(' ∈ e) (h3 : e.getLast? ≠ some ')') : parseTree o fuel depth e = .error .value :=
+  parseTree_unclosed o fuel depth e h1 h2 h3
+
+example : parseTree exampleOracle 9 0 "pk(xA}".toList = .error .value := by decide +kernel
 
 /-- T2 (trees): `_parse_tree(_tree_expression(t)) == t` for every tree of `pk()`, `multi_a()`,
     `sortedmulti_a()` leaves no deeper than `MAX_TREE_DEPTH`. -/
@@ -319,14 +344,6 @@ theorem parse_of_str (o : KeyOracle) (d : D) (h : DOk o .top d)
   rw [hc] at hc'
   cases hc'
   simp only [Desc.parse, hacc.1, hp]
-
-/-- a small oracle for the examples: texts starting with `x` are extended public keys, every point is
-    on the curve. -/
-def exampleOracle : KeyOracle where
-  xkey t := if t.head? = some 'x' then some t else none
-  validPub _ := true
-  wif _ := none
-  validAddr _ := false
 
 /-- `sh(wsh(sortedmulti(2,[c0ffee00/84'/0']xA/0/*',02aa…aa)))`: non-trivial, well-formed, read back. -/
 example :
